@@ -4,7 +4,7 @@
   the `c01-front` stream, and the MEASURED comparison of the two validators on every document.
 
     jsfc12 <id> <real-id> <doc>  →  base=<b> satlax=<b> inst=<b> concl=<b|n/a> satgap=<b> jsfrag=<b> frag=<b> modelled=<b> src=<b> emjs=<b|n/a> satjs=<b|n/a>
-                                    samedefs=<b> nonull=<b> cmp=<both|none|src-only|emit-only|n/a> cmpgo=<…>
+                                    samedefs=<b> nonull=<b> widened=<b> cmp=<both|none|src-only|emit-only|n/a> cmpgo=<…>
         base    : FragJS ∧ PlainS of the real IR ∧ wfDeep ∧ jsValidX of the SOURCE schema
         satlax  : `satLax` (below) of the pass models' output Sg — expected for every `base` document
         inst    : every hypothesis of the theorem holds (FragJS, PlainS, wfDeep, jsValidX of the SOURCE schema, jsFrag of the pass
@@ -23,6 +23,7 @@
                   every validation keyword of the case is modelled; cmpgo: the same against `emitDefs Sg`
 -/
 import Cog.Drv.FrontDrv
+import Cog.Drv.FrontOaDrv
 import Cog.Sem.JsonSchemaOutDescribes
 import Cog.Sem.JsonSchemaOutFrag
 namespace Cog.Drv
@@ -99,6 +100,69 @@ def cmpText (src : Bool) : Option Bool → String
   | none => "n/a"
   | some e => if src && e then "both" else if src then "src-only" else if e then "emit-only" else "none"
 
+open Cog.Front.OpenApi in
+mutual
+/-- some node is a CLOSED object without properties (`type: object, additionalProperties: false`, no `properties`):
+    `walkObject` reads it as `any`, so the IR — and the emitted schema — accept more than the source does (the converse
+    direction of the comparison is not expected for such a case) -/
+partial def osClosedEmpty : OS → Bool
+  | .mk a allOf anyOf oneOf props addl items =>
+    (typeIs a "object" && props.isEmpty && a.addlHas == some false) ||
+    allOf.any osrClosedEmpty || anyOf.any osrClosedEmpty || oneOf.any osrClosedEmpty ||
+    props.any (fun kv => osrClosedEmpty kv.2) || ooptClosedEmpty addl || ooptClosedEmpty items
+partial def osrClosedEmpty : OSR → Bool
+  | .mk _ hasValue _ v => hasValue && osClosedEmpty v
+partial def ooptClosedEmpty : OOpt → Bool
+  | .none => false
+  | .some r => osrClosedEmpty r
+end
+
+/-- the verdicts of one document; `frag` / `modelled` / `strict` (at fuel `e2eFuel`) / `src` come from the source format -/
+def emitVerdicts (frag modelled strict src widened : Bool) (pkg root : String) (real : Schemas) (prep : SrcPrep) (j : Json) : String :=
+  let n := e2eFuel
+  let base := frag && prep.plainS && wfDeep j && strict
+  let (jsf, others, satv, concl) :=
+    match prep.model with
+    | none => (false, false, false, false)
+    | some Sg =>
+      match Schemas.locate Sg pkg with
+      | none => (false, false, false, false)
+      | some s =>
+        let jsf := JSOut.jsFrag Sg s
+        match JSOut.emitDefs (JSOut.emitFuel Sg) Sg s with
+        | none => (jsf, false, false, false)
+        | some D =>
+          let others := s.pkg == pkg && jsf && JSOut.localHas s root
+          let satv := JSOut.sat (n + 3) Sg (.ref pkg root {}) j
+          let concl := base && others && satv &&
+            (match goRoundTrip (n + 3) Sg pkg root j with
+             | .ok j' => Json.eqv j' j && JSOut.jsValidObj D (n + 3 + 1) root j'
+             | _ => false)
+          (jsf, others, satv, concl)
+  let satlax := match prep.model with
+    | some Sg => satLax (n + 3) Sg (.ref pkg root {}) j
+    | none => false
+  let inst := base && others && satv
+  let satgap := base && others && !satv
+  let cmp := if modelled then cmpText src (emittedValid real pkg root (frontFuel + 1) j) else "n/a"
+  let cmpgo := if modelled then
+      (match prep.model with
+       | some Sg => cmpText src (emittedValid Sg pkg root (frontFuel + 1) j)
+       | none => "n/a")
+    else "n/a"
+  let sjs := match Passes.runChain jsEmitChain real with | .ok x => some x | _ => none
+  let emjs := match sjs with
+    | some x => (match emittedValid x pkg root (frontFuel + 1) j with | some b => toString b | none => "n/a")
+    | none => "n/a"
+  let satjs := match sjs with
+    | some x => toString (JSOut.sat (frontFuel + 1) x (.ref pkg root {}) j)
+    | none => "n/a"
+  let defsOf (ss : Schemas) : Option JSOut.Def := (Schemas.locate ss pkg).bind fun s => JSOut.emitDefs (JSOut.emitFuel ss) ss s
+  let samedefs := match sjs.bind defsOf, prep.model.bind defsOf with
+    | some a, some b => JSOut.jsBeqKvs a b
+    | _, _ => false
+  s!"base={base} satlax={satlax} inst={inst} concl={if inst then toString concl else "n/a"} satgap={satgap} jsfrag={jsf} frag={frag} modelled={modelled} src={src} emjs={emjs} satjs={satjs} samedefs={samedefs} nonull={noNullMember j} widened={widened} cmp={cmp} cmpgo={cmpgo}"
+
 def jsfc12Line (rest : String) : IO String := do
   match rest.splitOn " " with
   | id :: realId :: js =>
@@ -107,53 +171,30 @@ def jsfc12Line (rest : String) : IO String := do
       match (Sexp.parse (" ".intercalate js)).bind Json.ofSexp with
       | none => return "bad-json"
       | some j =>
-        let root := rootName c.pkg c.root
         let prep ← srcPrep realId real
-        let n := e2eFuel
-        let strict := jsValidX fmtOracle c.defs n c.root j
-        let base := c.frag && prep.plainS && wfDeep j && strict
-        let (jsf, others, satv, concl) :=
-          match prep.model with
-          | none => (false, false, false, false)
-          | some Sg =>
-            match Schemas.locate Sg c.pkg with
-            | none => (false, false, false, false)
-            | some s =>
-              let jsf := JSOut.jsFrag Sg s
-              match JSOut.emitDefs (JSOut.emitFuel Sg) Sg s with
-              | none => (jsf, false, false, false)
-              | some D =>
-                let others := s.pkg == c.pkg && jsf && JSOut.localHas s root
-                let satv := JSOut.sat (n + 3) Sg (.ref c.pkg root {}) j
-                let concl := base && others && satv &&
-                  (match goRoundTrip (n + 3) Sg c.pkg root j with
-                   | .ok j' => Json.eqv j' j && JSOut.jsValidObj D (n + 3 + 1) root j'
-                   | _ => false)
-                (jsf, others, satv, concl)
-        let satlax := match prep.model with
-          | some Sg => satLax (n + 3) Sg (.ref c.pkg root {}) j
-          | none => false
-        let inst := base && others && satv
-        let satgap := base && others && !satv
-        let src := jsValid fmtOracle c.defs frontFuel c.root j
-        let cmp := if c.modelled then cmpText src (emittedValid real c.pkg root (frontFuel + 1) j) else "n/a"
-        let cmpgo := if c.modelled then
-            (match prep.model with
-             | some Sg => cmpText src (emittedValid Sg c.pkg root (frontFuel + 1) j)
-             | none => "n/a")
-          else "n/a"
-        let sjs := match Passes.runChain jsEmitChain real with | .ok x => some x | _ => none
-        let emjs := match sjs with
-          | some x => (match emittedValid x c.pkg root (frontFuel + 1) j with | some b => toString b | none => "n/a")
-          | none => "n/a"
-        let satjs := match sjs with
-          | some x => toString (JSOut.sat (frontFuel + 1) x (.ref c.pkg root {}) j)
-          | none => "n/a"
-        let defsOf (ss : Schemas) : Option JSOut.Def := (Schemas.locate ss c.pkg).bind fun s => JSOut.emitDefs (JSOut.emitFuel ss) ss s
-        let samedefs := match sjs.bind defsOf, prep.model.bind defsOf with
-          | some a, some b => JSOut.jsBeqKvs a b
-          | _, _ => false
-        return s!"base={base} satlax={satlax} inst={inst} concl={if inst then toString concl else "n/a"} satgap={satgap} jsfrag={jsf} frag={c.frag} modelled={c.modelled} src={src} emjs={emjs} satjs={satjs} samedefs={samedefs} nonull={noNullMember j} cmp={cmp} cmpgo={cmpgo}"
+        return emitVerdicts c.frag c.modelled (jsValidX fmtOracle c.defs e2eFuel c.root j) (jsValid fmtOracle c.defs frontFuel c.root j) false
+          c.pkg (rootName c.pkg c.root) real prep j
+    | none, _ => return "unknown-case"
+    | _, none => return "unknown-schemas"
+  | _ => return "bad-request"
+
+/-- `oafc12 <id> <real-id> <root> <doc>`: the same for an OpenAPI case and the component `root`
+    (instance of C12_openapi_source_validates_emitted_partial) -/
+def oafc12Line (rest : String) : IO String := do
+  match rest.splitOn " " with
+  | id :: realId :: root :: js =>
+    match (← frontOaStore.get).get? id, ← getSchemas realId with
+    | some c, some real =>
+      match (Sexp.parse (" ".intercalate js)).bind Json.ofSexp with
+      | none => return "bad-json"
+      | some j =>
+        let cs := c.comps.getD []
+        let prep ← srcPrep realId real
+        return emitVerdicts (c.frag && Cog.Front.OpenApi.rootFrag cs root) c.modelled
+          (Cog.Front.OpenApi.oaValidX fmtOracle cs e2eFuel (Cog.Front.OpenApi.refTo root) j)
+          (Cog.Front.OpenApi.oaValid fmtOracle cs frontFuel (Cog.Front.OpenApi.refTo root) j)
+          (cs.any fun kv => osrClosedEmpty kv.2)
+          c.pkg root real prep j
     | none, _ => return "unknown-case"
     | _, none => return "unknown-schemas"
   | _ => return "bad-request"
